@@ -21,7 +21,7 @@ from . import odfread
 from .gridmodel import EMPTY, Grid, read_value, same_value
 from .harness import Abandon, Violation
 
-VALUES = [None, True, False, 0, 1, 2.5, "a", "b", "", date(2024, 1, 31), "a b", 1]
+VALUES = [None, True, False, 0, 1, 2.5, "a", "b", "", date(2024, 1, 31), "a b", 1, "Paris"]
 STYLES = [None, None, "ce1", "ce2"]
 CSTYLES = [None, "co1", "co2"]
 
